@@ -102,6 +102,39 @@ pub fn remove(v: &mut Value, p: &[Step]) -> bool {
 }
 
 /// all map nodes (paths), root first
+/// Pre-order index (as counted by `refcbor::heads` / `HeadFault`) of the head of the node at `path`.
+pub fn head_index_of(v: &Value, path: &[Step]) -> Option<usize> {
+    let count = |x: &Value| refcbor::heads(x).len();
+    let mut idx = 0usize;
+    let mut cur = v;
+    for step in path {
+        match (cur, step) {
+            (Value::Map(m), Step::Key(k)) => {
+                idx += 1;
+                let mut found = None;
+                for (kk, x) in m {
+                    if kk == k {
+                        idx += count(kk);
+                        found = Some(x);
+                        break;
+                    }
+                    idx += count(kk) + count(x);
+                }
+                cur = found?;
+            }
+            (Value::Array(a), Step::Index(i)) => {
+                idx += 1;
+                for x in a.iter().take(*i) {
+                    idx += count(x);
+                }
+                cur = a.get(*i)?;
+            }
+            _ => return None,
+        }
+    }
+    Some(idx)
+}
+
 pub fn maps(v: &Value) -> Vec<Path> {
     walk(v).into_iter().filter(|p| matches!(get(v, p), Some(Value::Map(_)))).collect()
 }
@@ -383,9 +416,10 @@ pub fn encode_with_random_head_fault(v: &Value, src: &mut Src) -> (Vec<u8>, Opti
         return (refcbor::encode(v), None);
     }
     let idx = src.below(hs.len());
-    let fault = match src.below(3) {
+    let fault = match src.below(4) {
         0 => HeadFault::Wider { idx, width: *src.pick(&[1u8, 2, 4, 8]) },
         1 => HeadFault::Indefinite { idx },
+        2 => HeadFault::Reserved { idx, ai: 28 + src.below(4) as u8 },
         _ => {
             // a length / count / value that lies: larger than what follows
             let (_, n) = hs[idx];
